@@ -116,8 +116,8 @@ class Shared:
         me = self
 
         class Spy(Budget):
-            def consume(s, cost=1):
-                r = super().consume(cost)
+            def consume(s, cost=1, *a, **kw):
+                r = super().consume(cost, *a, **kw)
                 me.log.append(("consume", world.t, me.cur, cost, r))
                 return r
 
@@ -142,7 +142,16 @@ class Shared:
                 clf = (lambda k, h: (lambda e: Classification(klass=k, retry_after_s=h)))(klass, None if hint == "none" else float(hint))
             late = p.get("attach") == "attr"  # the shared budget is attached by attribute assignment after construction
             rcl = (lambda c: (lambda r: c(r) if r == "bad" else None))(clf)
-            strat = (lambda d: (lambda c: d))(p["delay"])
+            def mk_strat(d, took):
+                def strat(c):
+                    # a strategy that takes time to answer (it consults a rate-limit service): the token is taken when the retry is
+                    # granted, i.e. at the clock reading of that moment
+                    world.t += took
+                    return d
+
+                return strat
+
+            strat = mk_strat(p["delay"], p.get("strategy_takes", 0.0))
             if p.get("attach") == "config":
                 # the bundle route: each of the four from_config twins must carry the budget over
                 from redress import RetryConfig
@@ -339,7 +348,7 @@ def gen_shared(rng):
     npol = rng.randint(2, 4)
     pols = [{"async": rng.random() < 0.5, "delay": rng.choice([0.0, G, w / 4, w / 2, w - G, w, w + G]), "max_attempts": rng.randint(2, 5),
              "hint": rng.choice(["bare", "bare", "none", "0.0", "0.5", "30.0"]), "klass": rng.choice(["TRANSIENT", "RATE_LIMIT", "SERVER_ERROR", "UNKNOWN", "CONCURRENCY"]),
-             "kind": rng.choice(["retry", "retry", "rp", "policy"]), "attach": rng.choice(["ctor", "ctor", "attr", "config"]), "deadline": rng.choice([100000.0, 100000.0, w, 2 * w, w / 2])} for _ in range(npol)]
+             "kind": rng.choice(["retry", "retry", "rp", "policy"]), "attach": rng.choice(["ctor", "ctor", "attr", "config"]), "deadline": rng.choice([100000.0, 100000.0, w, 2 * w, w / 2]), "strategy_takes": rng.choice([0.0, 0.0, 0.0, G, w / 2, w - G])} for _ in range(npol)]
     calls = [{"policy": rng.randrange(npol), "gap": rng.choice([0.0, 0.0, G, w / 2, w - G, w, w + G]), "dur": rng.choice([0.0, G, w / 4]), "batch": rng.randint(1, 3), "by_result": rng.random() < 0.3,
               "abort_at": rng.randint(0, 6) if rng.random() < 0.25 else None, "early_sleeper": rng.random() < 0.3} for _ in range(rng.randint(3, 10))]
     return {"max": mx, "window": w, "policies": pols, "calls": calls, "falsy": rng.random() < 0.25}
